@@ -123,6 +123,7 @@ def fam_c01(tier, seed):
     items = matching_family(tier, seed, events=("X", "U"))
     sks = _number("m", items)
     sks += _number("i", interleaved_family(tier))
+    sks += _number("x", cross_reservation_family())
     rep = report_level([it for it in items if it[1] == BASES[0]], 4 if tier == "quick" else 5, quick=tier == "quick")
     sks += _number("r", rep, level="report")
     return sks
@@ -253,6 +254,16 @@ def fam_c06(tier, seed):
     return sks
 
 
+def cross_reservation_family():
+    """two securities that each sell early and repurchase on one shared day, one of them also selling on that day: state
+    keyed by date (same-day reservations, claims on future purchases) must stay per security"""
+    out = []
+    for extra in (["S", "B", 30], ["S", "A", 30], ["S", "B", 31]):
+        l = [["B", "A", 0], ["B", "B", 0], ["S", "A", 1], ["S", "B", 1], ["B", "A", 30], ["B", "B", 30], extra]
+        out.append((sk.canon_order(l), BASES[0]))
+    return out
+
+
 def fam_c09(tier, seed):
     n = 4 if tier == "quick" else 5
     days = [0, 1, 30] if tier == "quick" else SHORT
@@ -265,7 +276,7 @@ def fam_c09(tier, seed):
     b3 = list(sk.bs_family(2, 3, [0, 30], tickers=("A", "B"), need_sell=True))
     for l in sk.with_events(b3, ("X", "C", "M"), [0, 1, 30], ratios=("2",), max_events=1, tickers=("A", "B")):
         items.append((l, BASES[0]))
-    items = _dedup(items)
+    items = _dedup(items + cross_reservation_family())
     sks = _number("m", items)
     rep = [it for it in items if len(it[0]) <= 3]
     sks += _number("r", rep, level="report")
@@ -380,7 +391,7 @@ SPECS.update({
                     "all permutations of every B/S ledger with 2..3 lines (and every 4-line ledger with two lines on one day) on {0,1,30,31}, of two-security ledgers with 2..3 lines (4 lines with a same-day pair), of ledgers with a split on a trading day; every BUY/SELL of ledgers up to 3 lines broken into two fills (adjacent and separated); ledgers up to 3 lines cut into two files at every boundary with 4 first-file endings; all numeric fields (and the fill weights) symbolic",
                     "as quick with 5-line ledgers (generators of the symmetric group for 5 lines), two securities up to 4 lines, fills up to 4 lines")),
                 assumptions=COMMON_ASSUME + ["the two-file input is produced by the real DSL writer; arbitrary lexical layouts are C13's subject"], outside=OUTSIDE + ["more than two input files", "fills of one trade on more than two lines"]),
-    "C09": dict(id="C09", families=fam_c09, entry_points=REPORT_ENTRY + ["cgt_core::parser::parse_file (ticker case)", "serde Deserialize for Transaction (ticker case)"],
+    "C09": dict(id="C09", families=fam_c09, chunk=2, entry_points=REPORT_ENTRY + ["cgt_core::parser::parse_file (ticker case)", "serde Deserialize for Transaction (ticker case)"],
                 bounds=bounds_rel((
                     "every two-security B/S ledger with 2..4 lines on {0,1,30} (plus one split/capital-return/accumulation line for 2..3 trade lines), every interleaving of the two securities' lines within each day; the whole ledger against each security alone; report level for <= 3 lines; all numeric fields symbolic",
                     "as quick with 2..5 lines on {0,1,30,31}")),
